@@ -52,7 +52,7 @@ def gen_case(rng, i):
     refmode = rng.choice(['explicit', 'dot', 'none', 'glob']) if names else rng.choice(['none', 'dot'])
     if refmode == 'glob' and not all(n.startswith('out') and '/' not in n for n in names):
         refmode = 'explicit'
-    if any(n.startswith('../') for n in names):
+    if any(n.startswith('../') or n.startswith(GC.HOME_PREFIX) for n in names):
         refmode = 'explicit'             # files outside the working directory are only checked when named
     if script == 'OMIT':
         refmode = 'none'
@@ -83,7 +83,7 @@ def bare_run(workdir, env, mut=None, names=None):
     p = subprocess.run('sh cmd.sh', shell=True, cwd=workdir, env=e, stdout=subprocess.PIPE, stderr=subprocess.PIPE, timeout=60)
     files = {}
     for fn in (names or []):
-        rp = GC.real_path(fn, workdir, e.get('TMPDIR', '/tmp'))
+        rp = GC.real_path(fn, workdir, e.get('TMPDIR', '/tmp'), e.get('HOME'))
         if os.path.isfile(rp):
             files[fn] = open(rp, 'rb').read()
     return (p.returncode, p.stdout, p.stderr, files)
@@ -152,6 +152,7 @@ def generate(ctx, case, tag='g'):
     else:
         sarg = sname
     names = [f['name'] for f in spec['files'] if not f['name'].startswith(GC.TMP_PREFIX)]     # (gentest watches its own $TMPDIR itself)
+    names = ['~/' + n[len(GC.HOME_PREFIX):] if n.startswith(GC.HOME_PREFIX) else n for n in names]   # (the documented ~ spelling)
     refs = {'explicit': names, 'dot': ['.'], 'none': [], 'glob': ['out*']}[case['refmode']]
     command = 'sh cmd.sh' + case.get('cmd_tail', '')
     pos = [command] + ([sarg] + refs if sarg else [])
